@@ -182,7 +182,9 @@ SIGNATURES = {
     # F3: pointwise clock order is not the modification order (a read raises an old store's clock)
     "coherence-clock-order": lambda p, kind, o: kind == "forbidden" and three_writes_two_threads(p),
     # F2: fence(Acquire) acquires from every store seen by a thread that happens-before the fencing thread
-    "fence-acquire-over-sync": lambda p, kind, o: kind in ("missing", "missed_failure") and has_fence(p, {"acq", "ar", "sc"}),
+    # (needs a third thread: a store is "seen" by a thread other than its writer and the fencing thread)
+    "fence-acquire-over-sync": lambda p, kind, o: kind in ("missing", "missed_failure") and has_fence(p, {"acq", "ar", "sc"})
+    and sum(1 for ops in threads_of(p) if any(x[0] in ATOMIC_READ | ATOMIC_WRITE for x in ops)) >= 3,
     # F16: a SeqCst load is not offered a SeqCst store when a clock-newer SeqCst store exists
     "seqcst-load-pruning": lambda p, kind, o: kind == "missing" and sc_load_and_stores(p),
     # F1: a thread's own access overwrites the single last-access slot of an atomic
@@ -191,7 +193,7 @@ SIGNATURES = {
     "chan-unbranched-empty-test": lambda p, kind, o: kind in ("missing", "missed_failure") and unbranched_empty_test(p),
     # F10: Inspect is not a dependence for RefDec / RefInc pairs
     "arc-inspect-not-dependent": lambda p, kind, o: kind in ("missing", "missed_failure")
-    and in_two_threads(p, {"acount", "agetmut", "aunwrap"}, {"adrop", "aclone", "adec", "ainc", "aunwrap", "agetmut"}),
+    and in_two_threads(p, {"acount"}, {"adrop", "aclone", "adec", "ainc", "aunwrap", "agetmut"}),
     # F9: a thread pending on a try-acquire is blocked by another thread's acquisition
     "try-acquire-blocked": lambda p, kind, o: has(p, "trylock", "tryrd", "trywr") and (
         kind == "missing" or (kind == "forbidden" and verdict(o) == "deadlock")),
